@@ -169,6 +169,8 @@ func runC06(c *eng.Ctx) {
 	ruleRestoreReadsTheWholeSnapshot(c)
 	c.Rule("R06.4", "K2")
 	rulePauseDecidesOnTheRuntimeFlag(c)
+	c.Rule("R12.5", "K5")
+	ruleRestoredGroupReplaysTheJoins(c)
 	p := c.P
 	P := applyPath(c)
 	var pkeys []string
